@@ -252,15 +252,45 @@ func c06build(s *sim.Sim, p *sim.Params) *c06sys {
 			y.apiKeys = append(y.apiKeys, t)
 		}
 	}
-	var src strings.Builder
-	for _, rt := range c06routes {
-		fmt.Fprintf(&src, "@ %s %s {\n", rt.verb(), rt.path)
-		if rt.kind != "open" {
-			fmt.Fprintf(&src, "  + auth(%s)\n", rt.kind)
+	// the auth type is spelled in any letter case (the declaration is case-insensitive)
+	spell := func(kind string) string {
+		switch kind {
+		case "jwt":
+			return []string{"jwt", "jwt", "JWT", "Jwt"}[s.Choose(sim.SWork, 4)]
+		case "apikey":
+			return []string{"apikey", "apikey", "ApiKey", "APIKEY", "apiKey"}[s.Choose(sim.SWork, 5)]
 		}
-		fmt.Fprintf(&src, "  > {marker: \"%s\"}\n}\n\n", rt.marker)
+		return kind
 	}
-	sv, err := simBuildServer(src.String(), s.Choose(sim.SWork, 2) == 1)
+	module := func(kindOf func(c06route) string) string {
+		var src strings.Builder
+		for _, rt := range c06routes {
+			fmt.Fprintf(&src, "@ %s %s {\n", rt.verb(), rt.path)
+			if k := kindOf(rt); k != "open" {
+				fmt.Fprintf(&src, "  + auth(%s)\n", spell(k))
+			}
+			fmt.Fprintf(&src, "  > {marker: \"%s\"}\n}\n\n", rt.marker)
+		}
+		return src.String()
+	}
+	interp := s.Choose(sim.SWork, 2) == 1
+	if s.Choose(sim.SWork, 4) == 0 {
+		// history: the same process served an earlier version of the file first (as `glyph dev`
+		// does on every save) in which the routes declared other auth types, with other
+		// credentials configured; nothing of it may survive into the server under test
+		s.Probe("rebuilt-after-earlier-version")
+		os.Setenv(envJWTSecret, "earlier-secret-1")
+		os.Setenv(envAPIKeys, "earlier-key-1")
+		rot := map[string]string{"open": "jwt", "jwt": "apikey", "apikey": "open"}
+		if old, err := simBuildServer(module(func(rt c06route) string { return rot[rt.kind] }), interp); err == nil {
+			for _, rt := range c06routes {
+				old.do(simReq{method: rt.verb(), path: rt.path, remote: "10.9.0.1:1", headers: [][2]string{{"Authorization", "Bearer earlier-secret-1"}, {"X-API-Key", "earlier-key-1"}}})
+			}
+		}
+		os.Setenv(envJWTSecret, jwt)
+		os.Setenv(envAPIKeys, keys)
+	}
+	sv, err := simBuildServer(module(func(rt c06route) string { return rt.kind }), interp)
 	if err != nil {
 		s.InfraFail("C06: cannot build server: " + err.Error())
 	}
